@@ -90,7 +90,7 @@ func (g *Gen) freshName1() []byte {
 	}
 }
 
-var badNames = []string{"", "1abc", "a b", "a-b", "x[", "x[]", "x[1", "x[a]", "x[1]y", "...", "...[0]", "..", "....", "...[x]", "é", "a\n", "[1]", "x[1][", "x[-1]", " x", "x ", "T", "f", "0b1", "0b", "0b2", "名前", "x٣", "v[٣]", "aé", "x[١]", "xⅫ", "ǅ", "x\u0300"}
+var badNames = []string{"", "1abc", "a b", "a-b", "x[", "x[]", "x[1", "x[a]", "x[1]y", "...", "...[0]", "..", "....", "...[x]", "é", "a\n", "[1]", "x[1][", "x[-1]", " x", "x ", "T", "f", "0b1", "0b", "0b2", "名前", "x٣", "v[٣]", "aé", "x[١]", "xⅫ", "ǅ", "x\u0300", "...[٠]", "...[١]", "...[0][1]", "...[]", "...[ 1]"}
 
 // widths and ranges
 func intRange(w int) (int64, int64) {
@@ -232,7 +232,9 @@ func (g *Gen) unsignedArg(u uint64) Arg {
 }
 
 var f32Special = []uint32{0, 0x80000000, 1, 0x80000001, 0x007fffff, 0x00800000, 0x3f800000, 0xbf800000,
-	0x7f7fffff, 0xff7fffff, 0x3dcccccd, 0x40490fdb, 0x7f7ffffe, 0x00000002, 0x33800000, 0x4b000000, 0x4effffff}
+	0x7f7fffff, 0xff7fffff, 0x3dcccccd, 0x40490fdb, 0x7f7ffffe, 0x00000002, 0x33800000, 0x4b000000, 0x4effffff,
+	// 7.038531e-26: its shortest decimal, read at 64 bits and narrowed afterwards, gives the neighbouring float32
+	0x15ae43fd, 0x95ae43fd}
 var f64Special = []uint64{0, 0x8000000000000000, 1, 0x8000000000000001, 0x000fffffffffffff, 0x0010000000000000,
 	0x3ff0000000000000, 0xbff0000000000000, 0x7fefffffffffffff, 0xffefffffffffffff, 0x3fb999999999999a,
 	0x400921fb54442d18, 0x47efffffe0000000, 0xc7efffffe0000000, 0x36a0000000000000, 0x3690000000000000,
